@@ -113,3 +113,5 @@ type vFIExt struct {
 
 func (f *vFIExt) Extended() []StatExtended { return f.ext }
 
+
+var vEpoch = time.Unix(5, 0)
